@@ -377,7 +377,7 @@ def evaluate(ast, fn, v, dynamic=False):
         "plurals::to_token_stream": lambda a: TOK("__PLURALS_VIEW__ ( %s )" % absint.fields_of(a[0])["id"][1]),
         "plurals::as_string_impl": lambda a: TOK("__PLURALS_STR__ ( %s )" % absint.fields_of(a[0])["id"][1]),
     }
-    ev.totokens = lambda x: (absint.fields_of(x)["name"][1] if x[0] == "ctor" and x[1] == "Key" else (x[1] if x[0] == "ctor" and not x[2] and len(x) < 4 and x[1] not in ("None", "Some") else None))
+    ev.totokens = lambda x: (absint.fields_of(x)["name"][1] if x[0] == "ctor" and x[1] == "Key" else (x[1] if x[0] == "ctor" and not x[2] and len(x) < 4 and x[1] not in ("None", "Some", "<default>") else None))
     got = ev.run_fn(fn, [v, I(N)])
     if isinstance(got, str):
         raise Unknown(got)
@@ -461,3 +461,113 @@ def _flatv(ps):
         if p[0] == "comp":
             out += _flatv(p[2])
     return out
+
+
+# ---------------------------------------------------------------------------------------------- per-locale match arms
+
+MI = "leptos_i18n_macro/src/load_locales/interpolate.rs"
+
+
+def _strip_either(items):
+    """`<path>::EitherOfN::X ( value )` (possibly nested) -> value"""
+    while True:
+        flat_ = [x for x in items if not isinstance(x, tuple)]
+        if len(items) >= 2 and isinstance(items[-1], tuple) and items[-1][0] == "(" and all(isinstance(x, str) for x in items[:-1]) \
+                and re.search(r"(EitherOf\d+|Either) :: \w+$", " ".join(flat_)):
+            items = items[-1][1]
+            continue
+        return items
+
+
+def check_locale_arms(ctx, r, rid="R5"):
+    """create_locale_impl / create_locale_string_impl: one arm per locale that defines the key, widened by the locales that fall
+    back to it; inside, that locale's table (its accessor, its size) and that locale's value - and nothing else"""
+    ast = ctx.ast
+    fns = {n: ast.fn(MI, n, impl_self="Interpolation") for n in ("create_locale_impl", "create_locale_string_impl")}
+    if None in fns.values():
+        r.missing("Interpolation::create_locale_impl / create_locale_string_impl")
+        return False
+    funcs = absint.file_funcs(ast, MV)
+    vals = {"en": Bloc(Lit(0), Var("var_x", FORMATTERS["number"]), Lit(2)), "fr": Bloc(Var("var_x", FORMATTERS["number"]), Lit(1)), "pt": Lit(0)}
+    counts = {"en": 3, "fr": 2, "pt": 5}
+
+    def loc(n):
+        return CF("Locale", name=K(n), top_locale_name=K(n), keys=L(T(K("other"), Lit(1)), T(K("k"), vals[n])), strings=L(), top_locale_string_count=I(counts[n]))
+    defaults = L(T(K("en"), L(K("de"), K("it"))), T(K("pt"), L(K("pt_BR"))))
+    fallback = {"en": ["de", "it"], "pt": ["pt_BR"], "fr": []}
+    bad = {}
+    n = 0
+    for fname, reader in (("create_locale_impl", read_view), ("create_locale_string_impl", read_string)):
+        for dyn, ssr in ((False, False), (True, True)):
+            def get_keys(rv, a):
+                vs, cs = [], []
+                keys_of(rv, vs, cs)
+                return C("Ok", C("Interpol", CF("InterpolationKeys", variables=L(*[T(k, CF("VarInfo", formatters=L(), range_count=C("None"))) for k in vs]), components=L(*cs)))) if vs or cs else C("Ok", C("Lit", A("ty")))
+            ev = AEval(inputs=[(r'^cfg!feature="dynamic_load"$', B(dyn)), (r'^cfg!allfeature="dynamic_load",notfeature="ssr"$', B(dyn and not ssr)),
+                               (r'^cfg!allfeature="dynamic_load",feature="ssr"$', B(dyn and ssr))], funcs=funcs,
+                       builtins={"unwrap_at": lambda rv, a: rv[2][0] if rv[0] == "ctor" and rv[2] else rv, "borrow": lambda rv, a: rv,
+                                 "as_inner": lambda rv, a: rv[2][0] if rv[0] == "ctor" and rv[1] == "Set" else rv, "get_keys": get_keys})
+            ev.path_builtins = {"Key::new": lambda a: C("Some", K(a[0][1]))}
+            ev.totokens = lambda x: (absint.fields_of(x)["name"][1] if x[0] == "ctor" and x[1] == "Key" else (x[1] if x[0] == "ctor" and not x[2] and len(x) < 4 and x[1] not in ("None", "Some", "<default>") else None))
+            known = {"key": K("k"), "enum_ident": TOK("Locale"), "locales": L(loc("en"), loc("fr"), loc("pt")), "locale_type_ident": TOK("LocaleStrings"), "defaults": defaults}
+            got = ev.run_fn(fns[fname], [known.get(pn, K("_" + pn.replace("_field", ""))) for pn in fns[fname].params()])
+            if isinstance(got, str):
+                raise Unknown("%s: %s" % (fname, got))
+            if got[0] != "list" or not all(x[0] == "tok" for x in got[1]):
+                raise Unknown("%s returns %s" % (fname, absint.fmt(got)[:100]))
+            seen = []
+            for arm in got[1]:
+                n += 1
+                items = tree(tokenize(arm[1]))
+                if "=>" not in items:
+                    bad.setdefault(fname, "an arm without `=>`: %s" % arm[1][:120])
+                    continue
+                k = items.index("=>")
+                pat = [x.replace(" ", "") for x in " ".join(flat(items[:k])).split("|")]
+                body = items[k + 1:]
+                names = [p_.split("::")[-1] for p_ in pat]
+                if not names or any(not re.match(r"^Locale::\w+$", p_) for p_ in pat):
+                    bad.setdefault(fname, "unreadable arm pattern `%s`" % " ".join(flat(items[:k])))
+                    continue
+                own = names[0]
+                seen.append(own)
+                if own not in vals or sorted(names[1:]) != sorted(fallback.get(own, [])):
+                    bad.setdefault(fname + "#fallback", "the arm of `%s` also serves %s; the locales that fall back to it are %s" % (own, names[1:], fallback.get(own)))
+                    continue
+                if not (len(body) == 1 and isinstance(body[0], tuple) and body[0][0] == "{"):
+                    bad.setdefault(fname, "the arm of `%s` is not a block: %s" % (own, text(body)[:120]))
+                    continue
+                stmts = split_top(body[0][1], ";")
+                bind = text(stmts[0]) if stmts else ""
+                mb = re.match(r"^(?:const|let) (\w+) : (?:& ' static|&) \[ (?:& ' static str|& str|Box < str >) ; (\d+) \] = super :: LocaleStrings :: (\w+) \( \)(?: \. await)?$", bind)
+                if not mb:
+                    bad.setdefault(fname + "#table", "the arm of `%s` does not start by binding its string table: `%s`" % (own, bind[:160]))
+                    continue
+                if int(mb.group(2)) != counts[own] or own not in mb.group(3):
+                    bad.setdefault(fname + "#table", "the arm of `%s` binds a table of size %s through `%s()`; this locale has %d strings and its own accessor" % (own, mb.group(2), mb.group(3), counts[own]))
+                    continue
+                if len(stmts) != 2:
+                    bad.setdefault(fname + "#extra", "the arm of `%s` does more than bind its table and render its value: `%s` - the builder's fields (the locale being rendered among them) must reach the value as the caller set them"
+                                   % (own, " ; ".join(text(st)[:80] for st in stmts[1:-1])))
+                    continue
+                val_items = _strip_either(stmts[1]) if fname == "create_locale_impl" else stmts[1]
+                global N
+                oldN = N
+                N = counts[own]
+                try:
+                    pieces = reader(val_items)
+                    want = expected(vals[own])
+                finally:
+                    N = oldN
+                if pieces is None:
+                    bad.setdefault(fname, "the arm of `%s` renders code of an unknown form: `%s`" % (own, text(val_items)[:160]))
+                elif norm(pieces) != norm(want):
+                    bad.setdefault(fname + "#value", "the arm of `%s` renders `%s`; that locale's value is `%s`" % (own, show_pieces(pieces), show_pieces(want)))
+            if sorted(seen) != sorted(vals):
+                bad.setdefault(fname + "#arms", "arms exist for %s; the locales that define the key are %s" % (sorted(seen), sorted(vals)))
+    for k, msg in sorted(bad.items()):
+        r.viol("%s:%s" % (rid, k), msg, file=MI, line=fns[k.split("#")[0]].line)
+    if not bad:
+        for fname in fns:
+            r.inst("Interpolation::" + fname, "%d generated arms (baked / dynamic_load+ssr): one arm per defining locale, widened by exactly the locales that fall back to it; it binds that locale's table (own accessor, own size) and renders that locale's value, nothing else" % (n // 2))
+    return True
